@@ -292,7 +292,7 @@ class PkgConfigInfo:
 
             'requires': requires.split(single=True),
             'requires_private': requires_private.split(single=True),
-            'conflicts': conflicts.split(),
+            'conflicts': conflicts.split(single=True),
 
             'extra_pkgs': extra,
             'extra_pkgs_private': extra_private + auto_extra,
